@@ -987,6 +987,137 @@ def structured_pass(run, rng, quick, conf_nlris):
     return ran, logs, counts, bad, problems
 
 
+# ------------------------------------------------------------------------------- (E) equal objects decoded from different wire bytes
+
+
+def equal_sets_pass(fail, rng, quick):
+    """Attribute sets and routes DECODED from wire bytes in which the set-like attributes (COMMUNITY, EXTENDED and
+    LARGE COMMUNITY, CLUSTER_LIST, AS_SET members) list the same values in every order and with duplicates.
+    Whatever `==` identifies must have the same index(), hash(), text, be one dict key, and give equal routes with
+    equal Route.index().  Nothing is demanded of pairs that `==` tells apart."""
+    import itertools
+    import struct
+    from exabgp.bgp.message.open.capability.negotiated import Negotiated
+    from exabgp.bgp.message.update.attribute.collection import AttributeCollection
+    from exabgp.bgp.message.update.nlri.cidr import CIDR
+    from exabgp.bgp.message.update.nlri.inet import INET
+    from exabgp.protocol.family import AFI, SAFI
+    from exabgp.protocol.ip import IP
+    from exabgp.rib.route import Route
+
+    neg = Negotiated.UNSET
+    origin = bytes([0x40, 1, 1, 0])
+    nexthop = bytes([0x40, 3, 4, 10, 0, 0, 1])
+    nlri = INET.from_cidr(CIDR.create_cidr(IP.pton('192.0.2.0'), 24), AFI.ipv4, SAFI.unicast)
+
+    def attr(flag, code, body):
+        if len(body) > 255:
+            return bytes([flag | 0x10, code]) + struct.pack('!H', len(body)) + body
+        return bytes([flag, code, len(body)]) + body
+
+    def aspath(segments):
+        return attr(0x40, 2, b''.join(bytes([t, len(m)]) + b''.join(struct.pack('!H', a) for a in m) for t, m in segments))
+
+    def decode(spec):
+        """spec: dict kind -> list of elements in wire order"""
+        data = origin + aspath([(2, [65000])] + ([(1, spec['as-set'])] if spec.get('as-set') else [])) + nexthop
+        for kind, flag, code in (('community', 0xC0, 8), ('cluster-list', 0x80, 10), ('extended-community', 0xC0, 16), ('large-community', 0xC0, 32)):
+            if spec.get(kind):
+                data += attr(flag, code, b''.join(spec[kind]))
+        # a new collection for every call: the "same bytes as the previous UPDATE" shortcut is C19's subject
+        return AttributeCollection().parse(data, neg), data
+
+    def elements(kind, k):
+        out = set()
+        while len(out) < k:
+            if kind == 'community':
+                out.add(struct.pack('!HH', rng.choice([0, 64512, 65000, 65535]), rng.choice([0, 1, 2, 700, 65281, rng.getrandbits(16)])))
+            elif kind == 'cluster-list':
+                out.add(bytes(rng.getrandbits(8) for _ in range(4)))
+            elif kind == 'extended-community':
+                out.add(bytes([rng.choice([0x00, 0x01, 0x02, 0x40, 0x43]), rng.choice([2, 3])]) + bytes(rng.getrandbits(8) for _ in range(6)))
+            elif kind == 'large-community':
+                out.add(struct.pack('!LLL', rng.choice([1, 65000, 4294967295]), rng.getrandbits(3), rng.getrandbits(3)))
+            else:
+                out.add(rng.choice([1, 2, 3, 100, 65000, 65535, rng.getrandbits(16)]))
+        return sorted(out)
+
+    kinds = ['community', 'extended-community', 'large-community', 'cluster-list', 'as-set']
+    stats = collections.Counter()
+    groups = []
+    for kind in kinds:
+        for k in (2, 3, 4):
+            for _ in range(2 if quick else 12):
+                base = elements(kind, k)
+                orders = [list(o) for o in itertools.permutations(base)]
+                if len(orders) > 10:
+                    orders = [orders[0]] + rng.sample(orders[1:], 9)
+                variants = orders + [orders[-1] + [base[0]], [base[-1]] + orders[0], base + base]
+                groups.append([{kind: v} for v in variants])
+    for _ in range(4 if quick else 40):  # several set-like attributes reordered at once
+        bases = {kind: elements(kind, rng.choice([2, 3])) for kind in kinds}
+        group = []
+        for _v in range(8):
+            group.append({kind: rng.sample(b, len(b)) for kind, b in bases.items()})
+        groups.append(group)
+
+    def text_of_spec(spec):
+        return {k: [x.hex() if isinstance(x, bytes) else x for x in v] for k, v in spec.items()}
+
+    for group in groups:
+        decoded = []
+        for spec in group:
+            try:
+                a, data = decode(spec)
+            except Exception as exc:
+                stats['refused'] += 1
+                continue
+            decoded.append((spec, a, data))
+        for (s1, a, d1), (s2, b, d2) in itertools.combinations(decoded, 2):
+            kind = '+'.join(sorted(s1))
+            try:
+                e1, e2 = bool(a == b), bool(b == a)
+            except Exception as exc:
+                fail(f'eq-raises:attributes:{kind}', 'comparing two decoded attribute sets raised', {'a': d1.hex(), 'b': d2.hex(), 'error': str(exc)[:200]})
+                continue
+            case = {'kind': kind, 'a_wire_order': text_of_spec(s1), 'b_wire_order': text_of_spec(s2), 'a_attributes': d1.hex(), 'b_attributes': d2.hex(),
+                    'a_text': repr(a), 'b_text': repr(b)}
+            if e1 != e2:
+                fail(f'eq-not-symmetric:attributes:{kind}', 'a == b and b == a disagree', case)
+                continue
+            if not e1:
+                stats['unequal:' + kind] += 1
+                continue
+            stats['equal:' + kind] += 1
+            if a.index() != b.index():
+                fail(f'eq-but-index-differs:attributes:{kind}', 'two decoded attribute sets compare equal but their index() differ',
+                     dict(case, a_index=a.index().decode(errors='replace'), b_index=b.index().decode(errors='replace')))
+            if hash(a) != hash(b):
+                fail(f'eq-but-hash-differs:attributes:{kind}', 'two decoded attribute sets compare equal but their hash() differ', case)
+            if len({a: 1, b: 2}) != 1:
+                fail(f'eq-but-two-dict-keys:attributes:{kind}', 'two decoded attribute sets compare equal but are two keys of one dict', case)
+            if repr(a) != repr(b):
+                fail(f'eq-but-text-differs:attributes:{kind}', 'two decoded attribute sets compare equal but render differently', case)
+            ra, rb = Route(nlri, a, nexthop=IP.from_string('10.0.0.1')), Route(nlri, b, nexthop=IP.from_string('10.0.0.1'))
+            if not (ra == rb) or ra != rb:
+                fail(f'eq-attributes-but-routes-differ:{kind}', 'same NLRI, equal attribute sets, but the routes are not ==', case)
+            if ra.index() != rb.index():
+                fail(f'eq-but-route-index-differs:{kind}', 'equal routes have different Route.index()', case)
+            if ra.extensive() != rb.extensive():
+                fail(f'eq-but-route-text-differs:{kind}', 'equal routes render differently', case)
+            for code in a:
+                if code in b:
+                    x, y = a[code], b[code]
+                    try:
+                        same = bool(x == y)
+                    except Exception:
+                        continue
+                    if same and (repr(x) != repr(y) or str(x) != str(y)):
+                        fail(f'eq-but-text-differs:attribute-{int(code)}', 'two decoded attributes compare equal but render differently',
+                             dict(case, attribute=int(code), a_attr=repr(x), b_attr=repr(y)))
+    return stats
+
+
 # ------------------------------------------------------------------------------- the check
 
 
@@ -1483,6 +1614,22 @@ def check(tier, seed):
 
         run.obligation('boundary-length pass ran', False, traceback.format_exc()[-1500:])
 
+    # ---------------------------------------------------------------- (E) equal objects decoded from different wire bytes
+    n_e = 0
+    try:
+        estats = equal_sets_pass(fail, rng, quick)
+        n_e = sum(v for k, v in estats.items() if k.startswith(('equal:', 'unequal:')))
+        n_equal = sum(v for k, v in estats.items() if k.startswith('equal:'))
+        run.coverage['decoded_equal_sets'] = dict(estats, rule='attribute sets decoded from wire bytes listing the same COMMUNITY / EXTENDED / LARGE '
+                                                  'COMMUNITY / CLUSTER_LIST / AS_SET values in every order and with duplicates, one or all five at once; every '
+                                                  'pair that == identifies is judged on index(), hash(), dict key, text, Route ==, Route.index(), Route text')
+        run.obligation(f'decoded-equal-sets pass ran ({n_e} pairs compared, {n_equal} identified by ==)', n_equal >= 50,
+                       f'{dict(estats)}')
+    except Exception:
+        import traceback
+
+        run.obligation('decoded-equal-sets pass ran', False, traceback.format_exc()[-1500:])
+
     # ---------------------------------------------------------------- (D) VPLS / RTC / EVPN framing / attribute values
     try:
         t4 = time.time()
@@ -1520,7 +1667,7 @@ def check(tier, seed):
     total_fail = sum(oracle_fail.values())
     run.obligation(
         f'property oracle on the real objects: round trips ({n_oracle} prefix NLRIs, {n_b} configured routes, {n_t} text routes), '
-        f'{n_c} boundary-length objects, eq => index/hash ({n_eq} pairs), index injectivity ({n_coll} objects incl. {len(pairs)} near-colliding pairs), rendering determinism',
+        f'{n_c} boundary-length objects, eq => index/hash ({n_eq} constructed pairs, {n_e} pairs of decoded attribute sets), index injectivity ({n_coll} objects incl. {len(pairs)} near-colliding pairs), rendering determinism',
         total_fail == 0, f'{total_fail} failing checks: {dict(oracle_fail)}')
 
     # ---------------------------------------------------------------- coverage
